@@ -162,16 +162,19 @@ CHECKS = {
 NOT_APPLICABLE = {}
 
 
-# clauses added after the second round of independently seeded changes (appended to the claim text)
+# clauses added after the second and third round of independently seeded changes (appended to the claim text)
 EXTRA = {
     'C01': ' Also: no exit between reception and CRC update other than restarts/AUTO-SYN (C01.R12); the enhanced frame decoder '
            'neither drops, duplicates nor splits a buffered symbol (shared C14.R3/R4).',
     'C02': ' Also: the CRC covers every echoed symbol of the escaped sequence (no early exit before the CRC update) and the '
-           'echo comparison sees the unmodified sent/received symbols.',
+           'echo comparison sees the unmodified sent/received symbols; every send state requires a really sent symbol '
+           '(sibling agreement C02.R13, found a genuine defect); a positive receive result is notified as OK (C02.R6, found a '
+           'genuine defect); CRC reset at SYN and the enhanced frame decoder clauses are shared (C02.R10-R12).',
     'C03': ' Also: the lock counter is set on the path on which the device reports the lost arbitration (C03.R5, re-anchored '
-           'after a genuine defect was found and fixed), and the echo comparison precedes the per-symbol processing.',
+           'after a genuine defect was found and fixed), the echo comparison precedes the per-symbol processing, and the '
+           'remaining receive timeout is recomputed from a fixed deadline (C03.R9).',
     'C05': ' Also: stream format state (number base, float format) is reset before every printed value (shared C12.R3/R5); '
-           'January/February adjustment of the day-count formulas.',
+           'January/February adjustment of the day-count formulas; derived-type cache key covers divisor and range (C05.R9).',
     'C06': ' Also: the base used to parse numbers is the one they are printed in (C06.R8, found a genuine octal defect), '
            'shared stream-state rules C12.R3/R5, calendar constants and month adjustment shared with C05.R6.',
     'C07': ' Also: floating values converted to signed integers are bounded strictly below 2^(w-1); the derived-type cache '
@@ -180,16 +183,19 @@ EXTRA = {
            'bound of a chained write part uses the size actually written (found a genuine defect).',
     'C12': ' Also: a conditionally inserted key part must cover every bit count for which the value can vary.',
     'C13': ' Also: exclusive comparison bounds are converted to the inclusive pairs the matcher uses (four flag combinations, '
-           'path-sensitive evaluation).',
+           'path-sensitive evaluation); the numeric read used by conditions shares the walker skeleton of C10.R1.',
     'C14': ' Also: a deferred two-byte sequence stays in the buffer as a whole.',
-    'C15': ' Also: every key field is widened to 64 bit before it is shifted.',
-    'C16': ' Also: the filtered lookups check every candidate themselves (C16.R4); cached raw data getters count as value uses.',
+    'C15': ' Also: every key field is widened to 64 bit before it is shifted; a registration replaces an earlier answer.',
+    'C16': ' Also: the filtered lookups check every candidate themselves (C16.R4); cached raw data getters count as value uses; '
+           'checkSecret compares the whole string (C16.R5).',
     'C17': ' Also: the global poll order high-water mark is written only in getNextPoll and only grows (C17.R4).',
-    'C18': ' Also: cursor discipline of the MQTT topic matcher StringReplacer::match (C18.R5).',
+    'C18': ' Also: cursor discipline of the MQTT topic matcher StringReplacer::match incl. shortened topics (C18.R5); quoting '
+           'in RequestImpl::split (C18.R6).',
     'C19': ' Also: every entry point of the field definition dump sets the decimal base before any number is written by it or '
-           'its callees (interprocedural summaries, C19.R5).',
+           'its callees (interprocedural summaries, C19.R5); quote position in dumpString; base type of derived types (C19.R6).',
     'C20': ' Also: throwing accessors at(k) are guarded by a size test that is not invalidated before the access (C20.R6; the '
-           'repository has no catch handler).',
+           'repository has no catch handler); field containers are not destroyed while their elements are owned elsewhere '
+           '(C20.R9); transport memmove/read sizes (shared C14.R7).',
 }
 
 
